@@ -2207,6 +2207,82 @@ def rule_P11(ctx, rid='P11'):
 # P12 a reader visits every index the writer emitted
 # ---------------------------------------------------------------------------
 
+def rule_P2s(ctx, rid='P2'):
+    """What is written is the whole array: a dataset (or attribute) written from a *slice* of an
+    attribute (`self.points[:N]`) persists a prefix only - the read-back object has a shorter
+    proposal cache / row set than the one that was written."""
+    ctx.rule(rid + 's', 'whole-array persistence: no writer or updater stores a slice of an '
+             'attribute in place of the attribute')
+    prog = ctx.program
+    n = 0
+    funcs = []
+    for c, w, r, u, obj in persist_classes(prog):
+        funcs += [w] + ([u] if u is not None else [])
+    S_ = prog.classes.get('Sampler')
+    if S_ is not None:
+        funcs += [S_.methods[m] for m in ('write', 'write_shell_update') if m in S_.methods]
+    for f in funcs:
+        for e in writer_table(f):
+            if e.src is None:
+                continue
+            v = _resolve_local(f, e.src)
+            sl = [x for x in ast.walk(v) if isinstance(x, ast.Subscript) and
+                  isinstance(x.slice, ast.Slice) and root_attr(x.value, f.self_name)]
+            n += 1
+            ctx.ob(rid + 's', '%s:whole(%s)' % (f.qualname, e.key), not sl, f.where(e.node),
+                   'key %r receives the whole value' % e.key if not sl else
+                   'key %r receives `%s`, a slice of the attribute: rows beyond the slice are '
+                   'not in the file, the read-back object refills its cache earlier and its '
+                   'sample stream and volume estimate diverge from the original'
+                   % (e.key, unparse(sl[0])[:50]))
+    return n
+
+
+def rule_P12k(ctx, rid='P12'):
+    """An ordered member list (bounds, point sets, shells) is never rebuilt by walking the names
+    of an HDF5 group: h5py yields them in alphabetical order ('bound_10' before 'bound_2'), so
+    from the eleventh member on the positions no longer match the sibling records that are read
+    by index.  Positions come from an integer range formatted into the key."""
+    ctx.rule(rid + 'k', 'no reader iterates the names of an HDF5 group to rebuild an ordered list')
+    prog = ctx.program
+    readers = [r for c, w, r, u, obj in persist_classes(prog)]
+    S_ = prog.classes.get('Sampler')
+    if S_ is not None and '__init__' in S_.methods:
+        readers.append(S_.methods['__init__'])
+    n = 0
+    for r in readers:
+        gv = _group_vars(r)
+        its = []
+        for x in ast.walk(r.node):
+            it = None
+            if isinstance(x, ast.For):
+                it = x.iter
+            elif isinstance(x, ast.comprehension):
+                it = x.iter
+            if it is None:
+                continue
+            base = it
+            if isinstance(base, ast.Call) and dotted(base.func) in ('sorted', 'list', 'tuple',
+                                                                    'reversed') and base.args:
+                if dotted(base.func) == 'sorted' and any(k.arg == 'key' for k in base.keywords):
+                    continue      # an explicit sort key can restore the numeric order
+                base = base.args[0]
+            if isinstance(base, ast.Call) and isinstance(base.func, ast.Attribute) and \
+                    base.func.attr in ('keys', 'items', 'values'):
+                base = base.func.value
+            if _is_group(base, gv) and not _is_attrs(base):
+                its.append(it)
+        n += 1
+        ctx.ob(rid + 'k', '%s:no-iteration-over-group-names' % r.qualname, not its,
+               r.where(its[0]) if its else r.where(),
+               'members are addressed by formatted integer positions only' if not its else
+               '`%s` walks the names of the group; h5py yields them alphabetically '
+               '(bound_0, bound_1, bound_10, bound_11, bound_2, ..): with more than ten members '
+               'the rebuilt list is permuted against the records read by index (points, shell '
+               'statistics, construction points)' % unparse(its[0])[:50])
+    return n
+
+
 def rule_P12(ctx, reader, obj, rid='P12'):
     """List members stored under an indexed key ('bound_{}', 'points_{}', ...) are written for
     every position of the list (enumerate / range(len)); the reader must ask for exactly the
